@@ -11,7 +11,12 @@
       no-rev-log-amt-data): GetStateNumHint, NewBreachRetribution, contractcourt's newRetributionInfo and
       createJusticeTx (spend-all, commit-outputs-only and HTLCs-only variants), btcd's script interpreter on
       every input against the cheater's REAL transaction; then again after the cheater took every HTLC to the
-      second level (convertToSecondLevelRevoke);
+      second level - one second-level transaction per HTLC (convertToSecondLevelRevoke) and, on anchor channel
+      types, ALL of them aggregated into one transaction (SINGLE|ANYONECANPAY; fed through updateBreachInfo):
+      each justice input must follow its HTLC to the output at the position of the spending input, with that
+      output's amount; finally every revoked height is put through the chain watcher's own handleCommitSpend
+      on a copy of the channel read from the database BEFORE the history (a stale handle nobody updates): it
+      must hand a retribution for exactly that state to the breach arbitrator;
   (c) TLC validates: base events form a behaviour of spec/Channel with the same error verdicts, and each
       `Justice` line carries what the spec computes from disk[p].revlog[h]: number and kind of inputs, exact
       amounts (balances net of the fee the opener pays, trimmed outputs absent), indexes/amounts stored in the
@@ -29,8 +34,13 @@ SHIM = {"lnwallet/zz_verif_c04_export.go": os.path.join(core.VERIF, "harness", "
 def keyfn(badrec, hdr, inv):
     role = "opener" if badrec.get("p") == hdr.get("opener") else "nonopener"
     bad = sorted({"k%d" % i["k"] for i in badrec.get("ins", []) if i["eng"] != 1 or i["eng2"] != 1})
-    if any(s["eng"] != 1 for s in badrec.get("sl", [])):
+    if any(s["eng"] != 1 or s["oidx"] != s["j"] or s["amt"] != s["txamt"] for s in badrec.get("sl", [])):
         bad.append("sl")
+    if badrec.get("bsl2") == 1 and (badrec.get("ball") != 1 or any(
+            s["eng"] != 1 or s["oidx"] != s["j"] or s["amt"] != s["txamt"] for s in badrec.get("bsl", []))):
+        bad.append("bsl")
+    if badrec.get("y") == 2:
+        bad.append("watcher")
     return "C04:%s:Justice:%s:%s:%s" % (inv, hdr.get("type"), role, "+".join(bad) or "-")
 
 
@@ -46,7 +56,7 @@ def controls(ck, recs, cfg, consts):
         c = [i for i, r in enumerate(bad) if pred(r)]
         return c[len(c) // 2] if c else None
 
-    good = lambda r: r["a"] == "Justice" and r["err"] == ""
+    good = lambda r: r["a"] == "Justice" and r["err"] == "" and r["y"] < 2
 
     def m_eng(bad):
         i = pick(bad, lambda r: good(r) and len(r["ins"]) >= 3)
@@ -62,7 +72,7 @@ def controls(ck, recs, cfg, consts):
         return i
 
     def m_hint(bad):
-        i = pick(bad, lambda r: r["a"] == "Justice")
+        i = pick(bad, lambda r: r["a"] == "Justice" and r["y"] < 2)
         if i is not None:
             bad[i]["hint"] += 1
         return i
@@ -79,11 +89,26 @@ def controls(ck, recs, cfg, consts):
             bad[i]["nhtlclog"] += 1
         return i
 
-    for mut, what in ((m_eng, "one HTLC justice input rejected by the interpreter"),
+    def m_batch(bad):
+        # the two second-level outputs of an aggregated transaction confused
+        i = pick(bad, lambda r: good(r) and r["bsl2"] == 1)
+        if i is not None:
+            bad[i]["bsl"][1]["oidx"] = bad[i]["bsl"][0]["oidx"]
+        return i
+
+    def m_watch(bad):
+        i = pick(bad, lambda r: r["a"] == "Justice" and r["y"] == 2)
+        if i is not None:
+            bad[i]["rec"] = 0
+        return i
+
+    for mut, what in ((m_batch, "batched second level: two HTLCs mapped to the same output"),
+                      (m_watch, "chain watcher with a stale handle did not hand over a retribution"),
+                      (m_eng, "one HTLC justice input rejected by the interpreter"),
                       (m_amt, "to_remote amount +1 sat (both in the descriptor and in the transaction)"),
                       (m_hint, "state hint decodes to h+1"),
                       (m_newer, "one HTLC input too many (entries of a newer commitment)")):
-        close.control(ck, recs, cfg, mut, what, constants=consts)
+        close.control(ck, recs, cfg, mut, what, constants=consts, nmax=1500)
 
 
 def run(ck, extra_overlay=None):
@@ -107,7 +132,8 @@ def run(ck, extra_overlay=None):
     cfg = "ChannelCloseTrace_C04.cfg"
     obs = ("Justice",)
     ok = close.judge(ck, prop, recs, cfg, obs, "C04", keyfn=keyfn, quirk=quirk)
-    js = [r for r in recs if r["a"] == "Justice"]
+    jw = [r for r in recs if r["a"] == "Justice" and r["y"] == 2]
+    js = [r for r in recs if r["a"] == "Justice" and r["y"] < 2]
     close.evidence(ck, recs, g, obs,
                    "at the end of each behaviour every revoked height of both parties is punished from a victim state "
                    "read back from the database, with the breach tx and with nil")
@@ -119,7 +145,10 @@ def run(ck, extra_overlay=None):
         no_amount_data_histories_missing=sum(1 for r in js if r["err"] == "missing"),
         justice_inputs=sum(len(r["ins"]) for r in js), htlc_inputs=sum(1 for r in js for i in r["ins"] if i["k"] >= 2),
         second_level_inputs=sum(len(r["sl"]) for r in js),
-        script_executions=sum(2 * len(r["ins"]) + len(r["sl"]) for r in js),
+        batched_second_level_cases=sum(1 for r in js if r.get("bsl2") == 1),
+        batched_second_level_inputs=sum(len(r.get("bsl", [])) for r in js),
+        chain_watcher_stale_handle_recognitions=len(jw),
+        script_executions=sum(2 * len(r["ins"]) + len(r["sl"]) + 2 * len(r.get("bsl", [])) for r in js),
         with_trimmed_output=sum(1 for r in js if r["err"] == "" and (r["ouridx"] < 0 or r["theiridx"] < 0)))
     big = [r for r in js if len(r["ins"]) >= 3]
     if big:
